@@ -113,7 +113,7 @@ def lattice_xy(chk, rng, count):
     for i in range(count):
         ref_lat = float(rng.uniform(-60, 60)) if i % 5 else [0.0, 60.0, -60.0, 45.0, -0.0][i // 5 % 5]
         ref_lon = float(rng.uniform(-180, 180)) if i % 7 else [-179.99, 179.99, 0.0][i // 7 % 3]
-        r = float(rng.uniform(1.0, 5000.0))
+        r = float(10 ** rng.uniform(-2, math.log10(5000.0)))          # centimetres to kilometres
         th = float(rng.uniform(0, 2 * math.pi)) if i % 3 else [0.0, math.pi / 2, math.pi, 1.5 * math.pi][i // 3 % 4]
         x, y = r * math.sin(th), r * math.cos(th)
         sc = {"kind": "geo_xy", "ref_lat": ref_lat, "ref_lon": ref_lon, "x": x, "y": y}
@@ -127,15 +127,30 @@ def lattice_xy(chk, rng, count):
         if (float(lon) > ref_lon) != (x > 0) and abs(x) > 1e-6 or (float(lat) > ref_lat) != (y > 0) and abs(y) > 1e-6:
             chk.violation("orientation of the inverse: (x, y) = (%.3f, %.3f) maps to dlat %+.3g, dlon %+.3g" % (x, y, float(lat) - ref_lat, float(lon) - ref_lon), sc, klass={"check": "orientation_inverse"})
             continue
+        if i % 3 == 0:
+            # call history: the same position against ANOTHER reference origin, then the first one again
+            ref2 = (ref_lat + 0.013, ref_lon - 0.021)
+            xa, ya = latlon_to_xy(float(lat), float(lon), ref2[0], ref2[1])
+            lat_b, lon_b = xy_to_latlon(xa, ya, ref2[0], ref2[1])
+            x3, y3 = latlon_to_xy(float(lat), float(lon), ref_lat, ref_lon)
+            n += 1
+            if abs(float(lat_b) - float(lat)) > 1e-10 or abs(float(lon_b) - float(lon)) > 1e-10 or (x3, y3) != (x2, y2):
+                chk.violation("the same position converted against a second reference origin does not round-trip (or the repeated first conversion differs): %r vs %r" % ((float(lat_b), float(lon_b)), (float(lat), float(lon))),
+                              dict(sc, second_reference=ref2), klass={"check": "call_history"})
+                continue
         d, b = haversine(ref_lat, ref_lon, float(lat), float(lon))
         bl = math.degrees(th) % 360.0
         db = abs((bl - b + 180.0) % 360.0 - 180.0)
-        if abs(r - d) > 1e-3 * d or (db > 0.1 and r > 10.0):
+        if abs(r - d) > 1e-3 * d + 1e-6 or (db > 0.1 and r > 10.0):
             chk.violation("inverse: local distance %.3f m / bearing %.4f deg, great circle to the returned point %.3f m / %.4f deg (ref_lat %.2f)" % (r, bl, d, b, ref_lat), sc, klass={"check": "great_circle_inverse"})
     # arrays through the inverse (documented as vectorised) agree with the scalars
     xs = rng.uniform(-4000, 4000, size=(3, 5))
     ys = rng.uniform(-4000, 4000, size=(3, 5))
+    xs0, ys0 = xs.copy(), ys.copy()
     la, lo = xy_to_latlon(xs, ys, 47.2, 11.3)
+    if not (np.array_equal(xs, xs0) and np.array_equal(ys, ys0)):
+        chk.violation("xy_to_latlon modifies the coordinate arrays it is given (the metre grid is overwritten)", {"kind": "geo_arrays"}, klass={"check": "arrays_modified"})
+        xs, ys = xs0.copy(), ys0.copy()
     ok = np.shape(la) == xs.shape and all(
         (float(la[i, j]), float(lo[i, j])) == tuple(float(v) for v in xy_to_latlon(float(xs[i, j]), float(ys[i, j]), 47.2, 11.3)) for i in range(3) for j in range(5))
     if not ok:
